@@ -12,6 +12,7 @@ import (
 	"os"
 	"runtime/debug"
 	"sort"
+	"strings"
 	"testing"
 
 	"github.com/wader/fq/pkg/decode"
@@ -82,8 +83,11 @@ func checkInvariants(t *treegen.Tree, res *treegen.Result, fmtSig bool) {
 	// post-processed by that function after its callback returns; when the
 	// callback fails, it never is.  Everything below such a root is attributed
 	// to that one cause.
+	// (Repaired in fq by 7e565ad1; the attribution is only kept for an fq
+	// that a start-up probe shows to behave the old way, so that on a repaired
+	// fq nothing is attributed to it and a regression gets this one signature.)
 	stale := map[*treegen.Node]bool{}
-	if t.Root.V.Err != nil {
+	if t.Root.V.Err != nil && !treegen.FQBehaviour().NestedRootProcessedOnFailure {
 		for _, n := range t.All {
 			if n != t.Root && n.IsBufRoot() && n.IsCompound() && n.V.Format == nil && n.V.Range.Len == 0 && len(n.Kids) > 0 {
 				stale[n] = true
@@ -451,35 +455,125 @@ func TestPrograms(t *testing.T) {
 	})
 }
 
-// TestSeeds: the minimal programs of the listed findings, as fixed cases (they
-// are counted as known today and must pass silently once fq is repaired).
+// TestSeeds: fixed cases that run in shard 0.
+//
+// Strict regression seeds of the three repaired defects (521c32ba
+// Value.Remove/ByName, 205b5ad2 seek past the end, 7e565ad1 nested root
+// post-processed after a failing callback; the FillGaps panic went away with
+// 205b5ad2): they must pass, nothing about them is listed as known any more.
+// The minimal programs of the findings that are still listed run too (counted
+// as known today, silent once repaired).
 func TestSeeds(t *testing.T) {
 	if harness.E.Shard != 0 || harness.E.Replay != "" {
 		t.Skip("seeds run in shard 0")
 	}
+	fail := func(sig, msg string, cs any) {
+		if harness.Violate(t.Name(), sig, msg, cs) {
+			t.Errorf("[%s] %s", sig, msg)
+		}
+	}
 	u := func(name string, n int64) *treegen.Op { return &treegen.Op{K: "u", Name: name, N: n} }
-	seeds := map[string]*treegen.Program{
-		"seek-past-end-empty-struct":   {Input: "00", NBits: 8, Fmts: [][]*treegen.Op{{u("a", 8), {K: "seekabs", Off: 100}, {K: "struct", Name: "s"}}}},
-		"nested-root-callback-fails":   {Input: "", NBits: 0, Fmts: [][]*treegen.Op{{{K: "structroot", Name: "r", Hex: "00", NB: 8, Kids: []*treegen.Op{u("x", 4), u("y", 8)}}}}},
-		"nested-root-in-nested-format": {Input: "0000", NBits: 16, Fmts: [][]*treegen.Op{{u("p", 8), {K: "fmt", Name: "f", Fmts: [][]*treegen.Op{{{K: "rootbuf", Name: "r", Hex: "00", NB: 8}, u("q", 8)}}}}}},
-		"nested-root-seek-first":       {Input: "", NBits: 0, Fmts: [][]*treegen.Op{{{K: "structroot", Name: "f1", Hex: "00", NB: 8, Kids: []*treegen.Op{{K: "seekrel", N: 1}, u("f2", 1)}}}}},
-		"gap-panic":                    {Input: "000000", NBits: 24, Fmts: [][]*treegen.Op{{u("f1", 3), {K: "seekabs_fn", Off: 25, Kids: []*treegen.Op{{K: "utf8", Name: "a"}}}, u("f2", 8), u("f3", 13)}}},
-		"trailing-bit-after-synthetic": {Input: "0b", NBits: 8, Fmts: [][]*treegen.Op{{{K: "framed", N: 8, Kids: []*treegen.Op{u("f1", 7)}}, {K: "val", Name: "f2"}}}},
+	kid := func(v *decode.Value, i int) *decode.Value {
+		if v == nil {
+			return nil
+		}
+		if c, ok := v.V.(*decode.Compound); ok && i < len(c.Children) {
+			return c.Children[i]
+		}
+		return nil
 	}
-	names := make([]string, 0, len(seeds))
-	for k := range seeds {
-		names = append(names, k)
+	type seed struct {
+		name   string
+		p      *treegen.Program
+		strict func(top *decode.Value) string // "" = ok
 	}
-	sort.Strings(names)
-	for _, name := range names {
-		p := seeds[name]
+	seeds := []seed{
+		{"seek-past-end-empty-struct", &treegen.Program{Input: "00", NBits: 8, Fmts: [][]*treegen.Op{{u("a", 8), {K: "seekabs", Off: 100}, {K: "struct", Name: "s"}}}},
+			func(top *decode.Value) string {
+				// the seek must fail: partial tree with the field read so far, nothing behind the end
+				if top == nil || top.Err == nil {
+					return "SeekAbs(100) on an 8 bit buffer did not fail the decode"
+				}
+				if top.Range.Len != 8 || kid(top, 1) != nil {
+					return fmt.Sprintf("partial tree after the failed seek: range %d:%d, want 0:8 with the one field read before", top.Range.Start, top.Range.Len)
+				}
+				return ""
+			}},
+		{"nested-root-callback-fails", &treegen.Program{Input: "", NBits: 0, Fmts: [][]*treegen.Op{{{K: "structroot", Name: "r", Hex: "00", NB: 8, Kids: []*treegen.Op{u("x", 4), u("y", 8)}}}}},
+			func(top *decode.Value) string {
+				r := kid(top, 0)
+				if r == nil || r.Name != "r" {
+					return "nested root r missing from the partial tree"
+				}
+				if in := r.InnerRange(); in.Start != 0 || in.Len != 4 {
+					return fmt.Sprintf("nested root whose callback failed has inner range %d:%d, its child x spans 0:4", in.Start, in.Len)
+				}
+				return ""
+			}},
+		{"gap-panic", &treegen.Program{Input: "000000", NBits: 24, Fmts: [][]*treegen.Op{{u("f1", 3), {K: "seekabs_fn", Off: 25, Kids: []*treegen.Op{{K: "utf8", Name: "a"}}}, u("f2", 8), u("f3", 13)}}},
+			func(top *decode.Value) string {
+				if top == nil {
+					return "no tree (decode.Decode paniced or returned nothing)"
+				}
+				return ""
+			}},
+		// still listed findings
+		{"nested-root-in-nested-format", &treegen.Program{Input: "0000", NBits: 16, Fmts: [][]*treegen.Op{{u("p", 8), {K: "fmt", Name: "f", Fmts: [][]*treegen.Op{{{K: "rootbuf", Name: "r", Hex: "00", NB: 8}, u("q", 8)}}}}}}, nil},
+		{"nested-root-seek-first", &treegen.Program{Input: "", NBits: 0, Fmts: [][]*treegen.Op{{{K: "structroot", Name: "f1", Hex: "00", NB: 8, Kids: []*treegen.Op{{K: "seekrel", N: 1}, u("f2", 1)}}}}}, nil},
+		{"nested-root-empty-child-not-at-zero", &treegen.Program{Arr: true, Force: true, Input: "", NBits: 0, Fmts: [][]*treegen.Op{{{K: "structroot", Name: "f1", Hex: "00", NB: 8, Kids: []*treegen.Op{{K: "rootbuf", Name: "f2"}, {K: "fmtrange", Name: "f3", Off: 1, Fmts: [][]*treegen.Op{nil, nil}}}}, u("f4", 1)}}}, nil},
+		{"trailing-bit-after-synthetic", &treegen.Program{Input: "0b", NBits: 8, Fmts: [][]*treegen.Op{{{K: "framed", N: 8, Kids: []*treegen.Op{u("f1", 7)}}, {K: "val", Name: "f2"}}}}, nil},
+	}
+	for _, sd := range seeds {
 		res := &treegen.Result{}
-		checkProgram(p, res)
-		harness.Count(harness.Hash64(p), true, "src:seed")
+		checkProgram(sd.p, res)
+		harness.Count(harness.Hash64(sd.p), true, "src:seed")
 		for _, f := range res.Fails {
-			if harness.Violate(t.Name(), f.Sig, name+": "+f.Msg, p) {
-				t.Errorf("[%s] %s: %s", f.Sig, name, f.Msg)
+			fail(f.Sig, sd.name+": "+f.Msg, sd.p)
+		}
+		if sd.strict != nil {
+			var top *decode.Value
+			func() {
+				defer func() { _ = recover() }()
+				top, _ = treegen.RunFQ(sd.p)
+			}()
+			if msg := sd.strict(top); msg != "" {
+				fail("regression:"+sd.name, sd.name+": "+msg, sd.p)
 			}
 		}
+	}
+	// the probes the reference interpreter follows must show the repaired behaviour
+	if b := treegen.FQBehaviour(); !b.SeekPastEndFails || !b.NestedRootProcessedOnFailure {
+		fail("regression:decode-api-behaviour", fmt.Sprintf("probe of the decode API: seek past end fails=%v, nested root post-processed after a failing callback=%v (both repaired)", b.SeekPastEndFails, b.NestedRootProcessedOnFailure), nil)
+	}
+	// the corpus inputs the three defects were found on
+	pool := treegen.NewPool()
+	defer pool.Close()
+	corpusSeeds := []struct {
+		req    treegen.Req
+		banned []string // signature prefixes that must not come back
+	}{
+		{treegen.Req{Path: "format/tls/testdata/ciphers/TLS_DHE_DSS_WITH_AES_128_CBC_SHA.pcap", Format: "probe", Mut: treegen.Mutation{Kind: "none"}}, []string{"struct-byname-mismatch"}},
+		{treegen.Req{Path: "format/apple/bookmark/testdata/loop.book", Format: "apple_bookmark", Mut: treegen.Mutation{Kind: "trunc", Off: 52}}, []string{"zero-length-value-past-buffer-end", "range-outside-buffer"}},
+		{treegen.Req{Path: "format/apple/bookmark/testdata/loop.book", Format: "apple_bookmark", Mut: treegen.Mutation{Kind: "trunc", Off: 52}, Force: true}, []string{"zero-length-value-past-buffer-end", "range-outside-buffer"}},
+		{treegen.Req{Path: "format/leveldb/testdata/repeats.ldb/000005.ldb", Format: "leveldb_table", Mut: treegen.Mutation{Kind: "setbyte", Off: 3, Val: 1}, Force: true}, []string{"failed-decode:nested-root-not-post-processed", "compound-range", "struct-order", "array-index"}},
+		{treegen.Req{Path: "format/ogg/testdata/flac.ogg", Format: "ogg", Mut: treegen.Mutation{Kind: "dup", Off: 32, N: 4}, Force: true}, []string{"failed-decode:nested-root-not-post-processed", "compound-range", "struct-order", "array-index"}},
+	}
+	for _, cs := range corpusSeeds {
+		res := pool.Run(cs.req)
+		count(cs.req, res, "src:seed")
+		if res.Status != "tree" {
+			fail("regression:seed-not-decoded", fmt.Sprintf("%s: status %s (%s), a tree is expected", cs.req, res.Status, res.Detail), cs.req)
+			continue
+		}
+		for _, f := range res.Fails {
+			for _, b := range cs.banned {
+				if strings.HasPrefix(f.Sig, b) {
+					// reported under a regression signature so that no
+					// known: line can swallow it
+					fail("regression:"+f.Sig, cs.req.String()+": "+f.Msg, cs.req)
+				}
+			}
+		}
+		report(t, t.Name(), cs.req, res)
 	}
 }
